@@ -79,6 +79,14 @@ func W(x int) int {
 	return x*1000 + Occ()
 }
 
+// Boom is a one-argument call that panics when the decision tape says so.
+func Boom(x int) int {
+	if B(x) {
+		panic("boom" + strconv.Itoa(x))
+	}
+	return x*1000 + Occ()
+}
+
 // X logs "expression id evaluated" without its value (values whose rendering is not
 // stable across runs: channels, maps, pointers).
 func X[T any](id int, x T) T {
